@@ -17,8 +17,14 @@ A mutant with at least one DIFF (or a driver crash / timeout) is `killed`, one w
 Results are kept per `--tag` (e.g. round1 = generators as found, round2 = after strengthening) in the JSON
 file; the markdown table is regenerated from the JSON on every run.  `--jobs N` runs N mutants at a time,
 each in its own copy of the lean/ directory (work/mmw<i>/lean); `--procs P` is the total number of driver
-processes.  The operation files are split into line chunks (work/mm_chunks/) so that a single large file
-does not serialise the run.
+processes.  The operation lines are de-duplicated across the files (several properties share generators
+and seeds), `mem` and `encchar` lines are left out (Model/Mem.lean, Model/EncFam.lean import no decoder-side
+file), `enc` / `oneshotenc` / `specdec` lines (phase 3) are run only for mutants of Core, Data, Meta, OneShot,
+MaxLen (the only mutated files the encoder models and the transcribed specification import), and the rest is
+cut into chunks (work/mm_chunks/).  The lines that occur only in the largest file (C11, 340 k one-shot lines)
+are run in two phases: every 12th with everything else, the remaining ones only for mutants that nothing has killed
+yet — so for a killed mutant the C11 count may come from the 1/12 sample (`phases` = [1] in the JSON), while
+SURVIVED always means: no DIFF on any line of any file.
 """
 import argparse
 import concurrent.futures as cf
@@ -33,7 +39,7 @@ import time
 
 VERIF = os.path.dirname(os.path.dirname(os.path.abspath(__file__)))
 WORK = os.path.join(VERIF, "work")
-CHUNK_BYTES = 24 << 20
+CHUNK_BYTES = 8 << 20
 
 
 def load_mutants(path):
@@ -53,34 +59,80 @@ def load_mutants(path):
     return ms
 
 
-def make_chunks(patterns):
-    """-> [(ops name, chunk path)]; chunks are line-aligned pieces of about CHUNK_BYTES"""
+ENC_KINDS = (b"enc ", b"oneshotenc ", b"specdec ")
+# model files whose mutants can change the answer to an encoder-side / spec line
+ENC_RELEVANT = ("Core.lean", "Data.lean", "Meta.lean", "OneShot.lean", "MaxLen.lean")
+
+
+def make_chunks(patterns, sample_every=12):
+    """The operation lines of all files, each DISTINCT line once (several properties share generators and
+    seeds, e.g. C08 / C18), without the `mem` lines (Model/Mem.lean does not import any decoder-side file).
+    -> (file names, [(phase, chunk path, masks)]) where masks[i] = bit set of the files line i+1 of the chunk
+    occurs in.  Phase 2 = the lines that occur only in the largest file (mm_C11.ops) except every
+    `sample_every`-th of them; phase 2 is run only for mutants without a DIFF in phase 1."""
+    import hashlib
+    import pickle
     cdir = os.path.join(WORK, "mm_chunks")
     os.makedirs(cdir, exist_ok=True)
-    out = []
     files = []
     for pat in patterns:
         files += sorted(glob.glob(os.path.join(VERIF, pat)))
-    for f in files:
-        name = os.path.basename(f)
-        size = os.path.getsize(f)
-        k = max(1, (size + CHUNK_BYTES - 1) // CHUNK_BYTES)
-        stamp = os.path.join(cdir, name + ".stamp")
-        want = "%d %d %d" % (size, int(os.path.getmtime(f)), k)
-        have = open(stamp).read() if os.path.exists(stamp) else ""
-        paths = [os.path.join(cdir, "%s.%02d" % (name, i)) for i in range(k)]
-        if have != want or not all(os.path.exists(p) for p in paths):
-            for p in glob.glob(os.path.join(cdir, name + ".[0-9][0-9]")):
-                os.remove(p)
-            subprocess.run(["split", "-n", "l/%d" % k, "-d", "-a", "2", f, os.path.join(cdir, name + ".")], check=True)
-            open(stamp, "w").write(want)
-        out += [(name, p) for p in paths]
-    # big chunks first (better packing)
-    out.sort(key=lambda x: -os.path.getsize(x[1]))
-    return out
+    names = [os.path.basename(f) for f in files]
+    want = " ".join("%s:%d:%d" % (n, os.path.getsize(f), int(os.path.getmtime(f))) for n, f in zip(names, files)) + " every=%d v3" % sample_every
+    stamp = os.path.join(cdir, "stamp")
+    idx = os.path.join(cdir, "index.pickle")
+    if os.path.exists(stamp) and open(stamp).read() == want and os.path.exists(idx):
+        names2, chunks = pickle.load(open(idx, "rb"))
+        if all(os.path.exists(c[1]) for c in chunks):
+            return names2, chunks
+    for pth in glob.glob(os.path.join(cdir, "p[123].*")):
+        os.remove(pth)
+    big = max(range(len(files)), key=lambda i: os.path.getsize(files[i])) if files else 0
+    seen = {}  # digest -> index into lines
+    lines = []
+    masks = []
+    for fi, f in enumerate(files):
+        with open(f, "rb") as fh:
+            for line in fh:
+                if line.startswith(b"mem ") or line.startswith(b"encchar") or not line.strip():
+                    continue
+                d = hashlib.blake2b(line, digest_size=12).digest()
+                j = seen.get(d)
+                if j is None:
+                    seen[d] = len(lines)
+                    lines.append(line)
+                    masks.append(1 << fi)
+                else:
+                    masks[j] |= 1 << fi
+    del seen
+    p1, p2, p3 = [], [], []
+    k = 0
+    for i, m in enumerate(masks):
+        if lines[i].startswith(ENC_KINDS):
+            p3.append(i)
+        elif m == (1 << big):
+            k += 1
+            (p1 if k % sample_every == 0 else p2).append(i)
+        else:
+            p1.append(i)
+    chunks = []
+    for phase, sel in ((1, p1), (2, p2), (3, p3)):
+        total = sum(len(lines[i]) for i in sel)
+        nchunks = max(1, (total + CHUNK_BYTES - 1) // CHUNK_BYTES)
+        # round-robin so that every chunk gets the same mix of cheap and expensive lines
+        for c in range(nchunks):
+            part = sel[c::nchunks]
+            path = os.path.join(cdir, "p%d.%02d" % (phase, c))
+            with open(path, "wb") as fh:
+                for i in part:
+                    fh.write(lines[i])
+            chunks.append((phase, path, [masks[i] for i in part]))
+    pickle.dump((names, chunks), open(idx, "wb"))
+    open(stamp, "w").write(want)
+    return names, chunks
 
 
-def run_chunk(drv, name, path, timeout):
+def run_chunk(drv, path, timeout):
     t0 = time.time()
     try:
         with open(path) as f:
@@ -93,17 +145,20 @@ def run_chunk(drv, name, path, timeout):
         if isinstance(out, bytes):
             out = out.decode("utf-8", "replace")
         crashed, why = True, "timeout"
-    diffs = 0
+    diffs = []
     bad = 0
     sample = None
     for line in out.splitlines():
         if line.startswith("DIFF "):
-            diffs += 1
-            if sample is None:
+            try:
+                diffs.append(int(line.split(" ", 2)[1]))
+            except ValueError:
+                diffs.append(0)
+            if sample is None or len(line) < len(sample):
                 sample = line
         elif line.startswith("BAD "):
             bad += 1
-    return {"name": name, "diffs": diffs, "bad": bad, "crashed": why if crashed else "", "sample": sample, "tail": out[-300:] if crashed else "", "s": time.time() - t0}
+    return {"diffs": diffs, "bad": bad, "crashed": why if crashed else "", "sample": sample, "tail": out[-300:] if crashed else "", "s": time.time() - t0}
 
 
 def short_sample(line, limit=420):
@@ -137,7 +192,7 @@ class Worker:
         return p.returncode == 0, p.stdout, time.time() - t0
 
 
-def run_mutant(w, m, chunks, pool, timeout):
+def run_mutant(w, m, names, chunks, pool, timeout):
     path = os.path.join(w.lean, m["file"])
     orig = open(path, encoding="utf-8").read()
     res = {"id": m["id"], "file": m["file"], "note": m["note"], "old": m["old"], "new": m["new"]}
@@ -158,20 +213,35 @@ def run_mutant(w, m, chunks, pool, timeout):
             res["detail"] = " | ".join(errs[:3])[:600]
             return res
         t0 = time.time()
-        futs = [pool.submit(run_chunk, w.drv, name, p, timeout) for name, p in chunks]
         per = {}
         sample = None
         crashed = []
         bad = 0
-        for f in futs:
-            r = f.result()
-            per[r["name"]] = per.get(r["name"], 0) + r["diffs"]
-            bad += r["bad"]
-            if r["crashed"]:
-                crashed.append("%s: %s %s" % (r["name"], r["crashed"], r["tail"][-120:].replace("\n", " ")))
-            if r["sample"] and (sample is None or len(r["sample"]) < len(sample)):
-                sample = r["sample"]
+        phases_run = []
+        # phase 3 = encoder-side and specification lines: only for mutants of files they can depend on
+        enc_rel = m["file"].endswith(ENC_RELEVANT)
+        for phase in ((3, 1, 2) if enc_rel else (1, 2)):
+            if phase == 2 and (per or crashed or bad):
+                break
+            sel = [c for c in chunks if c[0] == phase]
+            if not sel:
+                continue
+            phases_run.append(phase)
+            futs = [(c, pool.submit(run_chunk, w.drv, c[1], timeout)) for c in sel]
+            for c, f in futs:
+                r = f.result()
+                for n in r["diffs"]:
+                    m = c[2][n - 1] if 0 < n <= len(c[2]) else 0
+                    for fi, name in enumerate(names):
+                        if m & (1 << fi):
+                            per[name] = per.get(name, 0) + 1
+                bad += r["bad"]
+                if r["crashed"]:
+                    crashed.append("%s: %s %s" % (os.path.basename(c[1]), r["crashed"], r["tail"][-120:].replace("\n", " ")))
+                if r["sample"] and (sample is None or len(r["sample"]) < len(sample)):
+                    sample = r["sample"]
         res["run_s"] = round(time.time() - t0, 1)
+        res["phases"] = phases_run
         res["diffs"] = {k: v for k, v in sorted(per.items()) if v}
         res["total_diffs"] = sum(per.values())
         res["bad"] = bad
@@ -283,10 +353,12 @@ def main():
     if a.tag_note:
         data.setdefault("tag_notes", {})[a.tag] = a.tag_note
     data["results"].setdefault(a.tag, {})
-    chunks = make_chunks([a.ops])
-    data["ops"] = sorted({n for n, _ in chunks})
+    names, chunks = make_chunks([a.ops])
+    data["ops"] = names
     if not chunks:
         raise SystemExit("no operation files match " + a.ops)
+    print("corpus: " + ", ".join("%d distinct lines in phase %d (%d chunks)" % (
+        sum(len(c[2]) for c in chunks if c[0] == ph), ph, len([c for c in chunks if c[0] == ph])) for ph in (1, 2, 3)), flush=True)
 
     # the sources must be pristine
     st = subprocess.run(["git", "status", "--porcelain", "lean/EncodingRs/Model", "lean/Driver"], cwd=VERIF, stdout=subprocess.PIPE, text=True).stdout
@@ -301,8 +373,8 @@ def main():
         if not ok:
             raise SystemExit("baseline build failed in %s:\n%s" % (w.lean, out[-2000:]))
     t0 = time.time()
-    base = [f.result() for f in [pool.submit(run_chunk, workers[0].drv, n, p, a.timeout) for n, p in chunks]]
-    bd = sum(r["diffs"] for r in base)
+    base = [f.result() for f in [pool.submit(run_chunk, workers[0].drv, c[1], a.timeout) for c in chunks]]
+    bd = sum(len(r["diffs"]) for r in base)
     bc = [r for r in base if r["crashed"] or r["bad"]]
     print("baseline: %d chunks, %d diffs, %d crashed/bad, %.0fs" % (len(chunks), bd, len(bc), time.time() - t0), flush=True)
     data["baseline"] = {"diffs": bd, "crashed": len(bc), "samples": [short_sample(r["sample"]) for r in base if r["sample"]][:5]}
@@ -314,14 +386,19 @@ def main():
     todo = list(sel)
     done = [0]
 
+    stop = threading.Event()
+    import signal
+    signal.signal(signal.SIGTERM, lambda *_: stop.set())
+    signal.signal(signal.SIGINT, lambda *_: stop.set())
+
     def work(w):
         while True:
             with lock:
-                if not todo:
+                if not todo or stop.is_set():
                     return
                 m = todo.pop(0)
             try:
-                r = run_mutant(w, m, chunks, pool, a.timeout)
+                r = run_mutant(w, m, names, chunks, pool, a.timeout)
             except Exception as ex:  # noqa: BLE001
                 r = {"id": m["id"], "file": m["file"], "note": m["note"], "old": m["old"], "new": m["new"], "status": "error", "detail": repr(ex)[:300]}
             with lock:
